@@ -295,6 +295,7 @@ void QXmppTransferJob::accept(const QString &filePath)
         }
 
         d->iodevice = file;
+        d->deviceIsOwn = true;
         setLocalFileUrl(QUrl::fromLocalFile(filePath));
         setState(QXmppTransferJob::StartState);
     }
